@@ -1090,23 +1090,24 @@ type axisHit struct {
 }
 
 type axisRun struct {
-	c        *Ctx
-	named    *types.Named
-	fi       int
-	keepIdx  int // index of the boolean keepdims field (-1: none)
-	listFld  bool
-	getter   *ssa.Call
-	hits     []axisHit
-	seen     map[string]bool
-	decided  int
-	sinks    int
-	reshapes int
-	refused  int // invalid cells that end in an error on every path the walk could follow
-	aborted  bool
-	outWant  int // valid cells with a prescribed output shape
-	outOK    int // ... in which a tensor was created (WithShape) with exactly that shape and no other
-	retWant  int // valid cells with a prescribed shape of the returned tensor
-	retOK    int // ... in which the walk reached the return with a tensor of exactly that shape
+	c                   *Ctx
+	named               *types.Named
+	fi                  int
+	keepIdx             int // index of the boolean keepdims field (-1: none)
+	listFld             bool
+	getter              *ssa.Call
+	hits                []axisHit
+	seen                map[string]bool
+	decided             int
+	sinks               int
+	reshapes            int
+	refused             int // invalid cells that end in an error on every path the walk could follow
+	dupWant, dupRefused int // invalid cells that name an axis twice (in either spelling), and how many of them are refused
+	aborted             bool
+	outWant             int // valid cells with a prescribed output shape
+	outOK               int // ... in which a tensor was created (WithShape) with exactly that shape and no other
+	retWant             int // valid cells with a prescribed shape of the returned tensor
+	retOK               int // ... in which the walk reached the return with a tensor of exactly that shape
 }
 
 func fmtInts(l []int64) string { return strings.ReplaceAll(fmt.Sprint(l), " ", ",") }
@@ -1407,12 +1408,18 @@ func (ar *axisRun) run(entry *ssa.Function, args []pval, cell *axisCell, init bo
 			}
 		}
 	}
+	if cell.refuse && !init && strings.Contains(cell.desc, "duplicate") && hasRepeatedAxis(cell) {
+		ar.dupWant++
+	}
 	if cell.refuse && !init && len(res) == 2 {
 		switch {
 		case res[1].k == pNil:
 			ar.add("accepted", entry.Pos(), entry, cell, "")
 		case nonNilKind(res[1].k):
 			ar.refused++
+			if strings.Contains(cell.desc, "duplicate") && hasRepeatedAxis(cell) {
+				ar.dupRefused++
+			}
 		default:
 			if os.Getenv("R9FDEBUG") != "" {
 				fmt.Printf("R9FDEBUG undetermined invalid cell: %s -> %v\n", cell.desc, res)
@@ -1762,6 +1769,9 @@ func ruleAxisAccept(c *Ctx, prop string) {
 						invalids = append(invalids, repl, neg)
 						if k == 2 {
 							invalids = append(invalids, []int64{sub[0], sub[0]}, []int64{sub[0], sub[0] - or})
+							// a repeated axis with another one in between (a neighbour comparison on unsorted axes
+							// misses it); three entries make the output rank r+3
+							invalids = append(invalids, []int64{sub[0], sub[1], sub[0]}, []int64{sub[0], sub[1], sub[0] - (r + 3)})
 						}
 						for _, bad := range invalids {
 							c3 := &axisCell{rank: r, extents: ext, lists: map[int64][]int64{1: bad}, refuse: true, desc: fmt.Sprintf("axes = %s on an operand of shape %s (out of the output's range or duplicate)", fmtInts(bad), fmtInts(ext))}
@@ -1951,6 +1961,9 @@ func ruleAxisAccept(c *Ctx, prop string) {
 			if invalid == 0 || ar.refused*10 >= invalid*9 {
 				c.tableCovered["R9f:"+label] = "R9f:" + label
 			}
+			if ar.dupWant > 0 && ar.dupRefused == ar.dupWant {
+				c.tableCovered["R9f:"+label+":duplicates"] = fmt.Sprintf("R9f:%s (all %d requests that name an axis twice, in either spelling, end in an error)", label, ar.dupWant)
+			}
 			if os.Getenv("R9FDEBUG") != "" {
 				fmt.Printf("R9FDEBUG %s returned shapes confirmed %d of %d, output shapes %d of %d\n", label, ar.retOK, ar.retWant, ar.outOK, ar.outWant)
 			}
@@ -1966,4 +1979,25 @@ func ruleAxisAccept(c *Ctx, prop string) {
 		c.counts["R9f.invalid_cells_refused"] += ar.refused
 	}
 	c.counts["R9f.sources"] += n
+}
+
+// hasRepeatedAxis: the axes list of the cell names one axis twice once negative spellings are normalised.
+func hasRepeatedAxis(cell *axisCell) bool {
+	l := cell.lists[1]
+	if l == nil {
+		l = cell.field
+	}
+	for i := range l {
+		for j := i + 1; j < len(l); j++ {
+			if l[i] == l[j] {
+				return true
+			}
+			// the same axis in its two spellings differs by the rank of the tensor the axes refer to (unknown here
+			// for Unsqueeze: the output rank); accept any difference that makes one negative and one non-negative
+			if (l[i] < 0) != (l[j] < 0) {
+				return true
+			}
+		}
+	}
+	return false
 }
